@@ -126,7 +126,7 @@ def generated_items(tier, seed):
         else:
             st = structures.gen_structure(s, max_stems=6, max_len=3, knotted_bias=0.7)
         out.append({"id": "gen/%d" % i, "type": "bpseq", "triples": st["triples"],
-                    "solvers": ["cbc", "none"] if i % 3 == 0 else ["cbc"], "cost": 20000})
+                    "solvers": ["cbc", "none"] if i % 3 == 0 else ["cbc"], "graphviz": i % 6 == 1, "cost": 20000})
     return out
 
 
